@@ -180,6 +180,68 @@ def shape_select(nworkers, kind, n, kinds, optmask, other_direct=True, cumul_in_
     return sh
 
 
+def shape_twice(pattern):
+    """One task requires the same worker through two requirements (directly and in a selection list, in two
+    selection lists, twice the same cumulative worker). Either the model is rejected at creation (then there is
+    nothing to check: C18 owns the rule) or every requirement holds in every schedule: the task occupies the
+    directly required worker for its whole span, every selection picks its count among its own list and the
+    workers it picks are occupied for the whole span, and no worker serves two tasks at once."""
+    name = f"required_twice/{pattern}"
+
+    def build(P):
+        pb, hv = new_problem(P, False)
+        a, b = _tasks(P, ("fixed", "fixed"), (False, False))
+        ws = [ps.Worker(name=n) for n in ("W1", "W2", "W3")]
+        reqs = []  # (kind, workers, selection object or None)
+        if pattern == "direct_then_select":
+            a.obj.add_required_resource(ws[0])
+            reqs.append(("direct", [ws[0]], None))
+            sw = ps.SelectWorkers(list_of_workers=[ws[0], ws[1]], nb_workers_to_select=1)
+            a.obj.add_required_resource(sw)
+            reqs.append(("select", [ws[0], ws[1]], sw))
+        elif pattern == "two_selections_sharing_a_worker":
+            for lst in ([ws[0], ws[1]], [ws[1], ws[2]]):
+                sw = ps.SelectWorkers(list_of_workers=lst, nb_workers_to_select=1)
+                a.obj.add_required_resource(sw)
+                reqs.append(("select", lst, sw))
+        elif pattern == "cumulative_twice":
+            cw = ps.CumulativeWorker(name="CW", size=2)
+            a.obj.add_required_resource(cw)
+            a.obj.add_required_resource(cw)
+            ws = list(cw._cumulative_workers)
+        for w in ws[:2]:
+            b.obj.add_required_resource(w) if pattern != "cumulative_twice" else None
+        if pattern == "cumulative_twice":
+            b.obj.add_required_resource(ws[0])
+        return Ctx(problem=pb, tis=[a, b], ws=ws, reqs=reqs)
+
+    def obligations(ctx):
+        a = ctx.tis[0]
+        obs = []
+        for k, (kind, lst, sw) in enumerate(ctx.reqs):
+            if kind == "direct":
+                bs, be = lst[0]._busy_intervals[a.obj]
+                obs.append(Ob(f"{PROP}/{name}/req{k}_direct_worker_occupied_for_the_span", "sound", clause=And(bs == a.s, be == a.e), guard=a.sched))
+            else:
+                sels = [sw._selection_dict[w] for w in lst]
+                obs.append(Ob(f"{PROP}/{name}/req{k}_count", "sound", clause=Sum([b2i(x) for x in sels]) == 1))
+                for w, sel in zip(lst, sels):
+                    bs, be = w._busy_intervals[a.obj]
+                    obs.append(Ob(f"{PROP}/{name}/req{k}_selected_busy_eq_span_{w.name}", "sound", clause=And(bs == a.s, be == a.e), guard=And(a.sched, sel)))
+        if pattern == "cumulative_twice":
+            # two units of the cumulative worker are occupied by the task
+            occ = Sum([b2i(active(w._busy_intervals[a.obj])) for w in ctx.ws])
+            obs.append(Ob(f"{PROP}/{name}/two_units_occupied", "sound", clause=occ >= 2, guard=a.sched))
+        for w in ctx.ws:
+            obs += capacity_obs(name, w, w.name)
+        return obs
+
+    sh = Shape(name, build, obligations)
+    sh.on_exception = lambda path: []  # rejected at creation: nothing is returned, nothing to check
+    sh.on_grid_exception = lambda pt, e: True
+    return sh
+
+
 def shape_cumulative(size, ntasks, kinds, optmask):
     name = f"cumulative/size{size}/{'+'.join(kinds)}/opt{''.join(str(int(b)) for b in optmask)}"
 
@@ -284,6 +346,8 @@ def shapes(tier):
                 if n <= nw:
                     out.append(shape_select(nw, kind, n, ("fixed", "var"), (True, False), other_direct=False))
     out.append(shape_select(3, "min", 1, ("fixed", "fixed"), (False, False), cumul_in_list=True))
+    for pattern in ("direct_then_select", "two_selections_sharing_a_worker", "cumulative_twice"):
+        out.append(shape_twice(pattern))
     # cumulative workers
     for size, nt in ([(2, 3), (3, 4)] + ([(2, 4), (4, 5)] if thorough else [])):
         kinds = tuple((["fixed", "var", "fixed", "fixed", "var"])[:nt])
